@@ -386,8 +386,19 @@ class Engine(HeapMixin, ExprMixin, AccessMixin, CallMixin, StmtMixin, BytesMixin
     for y in spec.yields:
       if (spec.name, y['at']) not in self.yield_hits:
         self.degraded.append('yield anchor %r not found in %s (source drift): its assertions were not checked' % (y['at'], name))
+    resolved = set()
+    am = self.anchor_maps.get(spec.name)
+    if am is None and spec.ghost:
+      am = self.anchor_maps[spec.name] = self.resolve_anchors(spec, fnode)
+    if am is not None:
+      for gl in am[0].values():
+        for g0 in gl:
+          resolved.add(g0.get('after', g0.get('before')).strip())
     for g in spec.ghost:
-      if (spec.name, g.get('after', g.get('before')).strip()) not in self.ghost_hits:
+      a0 = g.get('after', g.get('before')).strip()
+      if a0 in resolved:
+        continue          # the anchored statement is there; if no feasible path reaches it there is nothing to attach
+      if (spec.name, a0) not in self.ghost_hits:
         self.degraded.append('ghost anchor %r not found in %s (source drift): its ghost block was skipped' % (g.get('after', g.get('before')), name))
     if res.exit_reached == 0 and not spec.no_exit:
       raise Unsupported('vacuous: no feasible path reaches an exit of %s' % name)
